@@ -2,6 +2,7 @@ import Proofs.Payouts
 import Proofs.Arith
 import Proofs.Bank
 import Proofs.Moves
+import Proofs.LivenessBank
 /-
   C16 — PEG conversion bank (legacy era): limit, proportional yield, refund.
   Statements are about `payouts` / `refund`, the model functions the correspondence check runs
@@ -114,6 +115,25 @@ theorem bank_pass_pays_and_refunds_exactly (P : Params) (h : Nat) (rates avgs : 
           (fun rp => pegDelta P h rates rp.1 rp.2.2 a x)).sum) :=
   recordPegRequests_exact P h rates avgs batches bank bh s
 
+/-- **The bank pass never fails** when every transaction of the batches that joined it is a
+    conversion into a known asset (a genuine PEG request is one) with distinct (entry, index) keys,
+    the bank fits in an int64 and — in the bank-table era — the block's bank row exists: every
+    request is paid its share (at most the bank) and refunded, the bank row is updated. The excluded
+    shape — a TRANSFER inside a batch that also holds a PEG request — is the recorded C08 finding. -/
+theorem bank_pass_never_fails (P : Params) (h : Nat) (rates avgs : TMap) (batches : List TxEntry)
+    (bank : Nat) (bh : Int) (s : DB)
+    (hkeys : hasDupKey ((pegRequests P h rates avgs batches).map (·.key)) = false)
+    (hconv : ∀ r ∈ pegRequests P h rates avgs batches, validTicker P r.tx.conversion = true ∧ validTicker P r.tx.inType = true)
+    (hbank : bank ≤ maxInt64)
+    (hrow : bh ≥ (P.act.v4 : Int) → s.bank.any (·.height == bh) = true) :
+    ∃ s', recordPegRequests P h rates avgs batches bank bh s = .ok () s' :=
+  recordPegRequests_never_fails P h rates avgs batches bank bh s hkeys hconv hbank hrow
+
+/-- with distinct keys no request is ever paid more than the bank -/
+theorem no_request_paid_more_than_the_bank (bank : Nat) (reqs : List (TxKey × Nat)) (hb : bank ≤ maxUint64)
+    (hn : (reqs.map (·.1)).Nodup) : ∀ p ∈ payouts bank reqs, p.2 ≤ bank :=
+  payout_le_bank bank reqs hb hn
+
 end Pegnet.C16
 
 #print axioms Pegnet.C16.bank_limit
@@ -126,3 +146,5 @@ end Pegnet.C16
 #print axioms Pegnet.C16.bank_row_records_used_and_requested
 #print axioms Pegnet.C16.request_paid_and_refunded_exactly
 #print axioms Pegnet.C16.bank_pass_pays_and_refunds_exactly
+#print axioms Pegnet.C16.bank_pass_never_fails
+#print axioms Pegnet.C16.no_request_paid_more_than_the_bank
